@@ -367,15 +367,25 @@ def event_index(v, p):
 
 
 def check_walk(ctx, rep, rule='T-walk'):
-    b, ps = rep.explore(ctx, CONNECT, rule)
+    # a helper that contains the walk loop is expanded into connect_edges (its loop is handled like connect_edges' own)
+    b, ps = rep.explore(ctx, CONNECT, rule, expand_loops=True)
     if b is None:
         return
-    loops = sorted(b.loops())
-    if len(loops) != 2:
-        rep.ob(rule, 'two-nested-loops', False, 'connect_edges has %d loops, the walk rule models an outer loop over start positions and an inner '
-               'walk loop' % len(loops), loc=b.loc(b.j['line_lo']), reason='cannot-tabulate')
+    outer = inner = None
+    for p in ps:
+        last = None
+        for e in p.events:
+            if e['k'] == 'loophead':
+                last = e['bb']
+            elif e['k'] == 'call' and e.get('depth', 0) == 0:
+                if e['callee'].endswith('initialize_from_context') and outer is None:
+                    outer = last
+                elif e['callee'] == NEXTPOS and inner is None:
+                    inner = last
+    if outer is None or inner is None or outer == inner:
+        rep.ob(rule, 'two-nested-loops', False, 'cannot find the loop over start positions (around initialize_from_context: %s) and the walk loop '
+               '(around get_next_pos: %s) in connect_edges and the helpers it calls' % (outer, inner), loc=b.loc(b.j['line_lo']), reason='cannot-tabulate')
         return
-    outer, inner = loops
     n = 0
     for p in ps:
         calls = [e for e in p.calls()]
